@@ -16,13 +16,14 @@ Spec: spec/Frame.tla (+ MC_C18, Trace_C18).
 import json
 import random
 
-from common import MachineryFailure
+from common import NCPU, MachineryFailure
 
-CHUNK = 12000
+CHUNK = 9000
+PAR = max(1, min(6, NCPU // 2))  # concurrent single-worker TLC processes (MC instances, trace-validation chunks)
 
 
 def _key(r, s):
-    return {"clause": r["clause"], "op": r["op"], "f": r["f"], "exc": s["exc"]}
+    return {"clause": r["clause"], "op": r["op"], "f": r["f"], "exc": s["exc"], "offset_in": r["offin"]}
 
 
 def _short(s):
@@ -46,12 +47,22 @@ def _validate(ck, hists, obs, label):
     for s in steps:
         kind = ("inplace-" if s["c"]["op"] in INPLACE else "copying-") + ("raised" if s["ex"] else "ok")
         stats[kind] = stats.get(kind, 0) + 1
-    for off in range(0, len(steps), CHUNK):
+    import os
+    from concurrent.futures import ThreadPoolExecutor
+
+    def judge(off):
         part = steps[off : off + CHUNK]
         path = ck.write_json(f"steps_{label}_{off}.json", part)
         res = ck.tlc("Trace_C18", env={"STEPS": path}, workers=1, coverage=False, label=f"trace validation {label} [{off}:{off + len(part)}]", timeout=1800)
+        os.unlink(path)
         if res.distinct != len(part) + 1:
             raise MachineryFailure(f"trace validation consumed {res.distinct - 1} of {len(part)} steps")
+        return off, part, res
+
+    offs = list(range(0, len(steps), CHUNK))
+    with ThreadPoolExecutor(max_workers=PAR) as ex:
+        judged = list(ex.map(judge, offs))  # verdicts are processed in chunk order: deterministic
+    for off, part, res in judged:
         for r in res.by_tag("T-FAIL"):
             s = part[r["idx"] - 1]
             c = s["c"]
@@ -66,9 +77,6 @@ def _validate(ck, hists, obs, label):
             changed = sorted(r.get("changed") or []) or [o for o in s["B"] if s["B"][o] != s["Af"][o]]
             detail = {"call": _short(s), "step": s["l"], "cfg": h["cfg"], "changed": {o: {"before": s["B"][o], "after": s["Af"][o]} for o in changed[:3]}, "twin": s["tw"] if r["clause"] == "P4_Twin" else None, "target": tgt}
             ck.violation(_key(r, s), detail, case={"cfg": h["cfg"], "h": h["h"][: s["l"]]})
-        import os
-
-        os.unlink(path)
     ck.validated(len(obs))
     return len(steps)
 
@@ -129,75 +137,65 @@ def run(ck):
                 c = h["h"][-1]
                 model_classes.add((cl, c["op"], c["f"]))
 
-    # 1. single step: configurations x catalogue, exhaustive
+    from concurrent.futures import ThreadPoolExecutor
+
+    # 3 (started first, runs beside the rest). code -> spec: the repository's test-suite under the tracer, predicate P18
+    import suite
+
+    pool = ThreadPoolExecutor(max_workers=1)
+    suite_job = pool.submit(suite.check, ck, ["P18"])
+
+    # 1. single step: configurations x catalogue, exhaustive ("lr" = lb/la: a unit whose spelling cancels to a coefficient)
     if ck.tier == "quick":
-        name = _cfg(ck, "MC_C18_q1", 1, ["f8", "i8", "i1"], ["f8"], ["la", "oc"], ["lb", "K"], ["na"], ["f8"])
-        name2 = _cfg(ck, "MC_C18_q2", 1, ["f8"], ["i8"], ["lb"], ["la", "oc", "tl"], ["la"], ["i8"])
-        inst = [name, name2]
+        name = _cfg(ck, "MC_C18_q1", 1, ["f8", "i8", "i1"], ["f8"], ["la", "oc"], ["lb", "K"], ["la"], ["f8"])
+        name2 = _cfg(ck, "MC_C18_q2", 1, ["f8"], ["i8"], ["lb", "lr"], ["la", "oc", "tl"], ["na"], ["i8"])
     else:
         name = _cfg(ck, "MC_C18_t1", 1, ["f8", "i8", "i1", "i4", "f4"], ["f8"], ["la", "oc", "K"], ["lb", "ta", "oc", "tl"], ["la", "na"], ["f8"])
-        name2 = _cfg(ck, "MC_C18_t2", 1, ["f8", "i2"], ["i8", "i4"], ["lb"], ["la", "oc"], ["ta"], ["i4"])
-        inst = [name, name2]
-    total_steps = 0
-    n_hist = 0
-    for nm in inst:
-        hists = _run_instance(ck, nm, f"single step: configurations x call catalogue ({nm})")
-        account(hists)
-        n_hist += len(hists)
-        if nm == inst[0]:
-            ck.sample({"cfg": hists[len(hists) // 2]["cfg"], "history": hists[len(hists) // 2]["h"]})
-        # replay + validate in slices to bound memory
-        SL = 60000
-        for off in range(0, len(hists), SL):
-            part = hists[off : off + SL]
-            obs = ck.pmap("impl_c18", "observe", [{"cfg": h["cfg"], "h": h["h"]} for h in part], chunk_timeout=1500)
-            total_steps += _validate(ck, part, obs, f"{nm}_{off}")
-    ck.cov["exhaustive"] = True
-    ck.cov["single_step_cases"] = n_hist
-
-    # 2. multi-step histories
+        name2 = _cfg(ck, "MC_C18_t2", 1, ["f8", "i2"], ["i8", "i4"], ["lb", "lr"], ["la", "oc"], ["ta"], ["i4"])
+    insts = [("step", name, f"single step: configurations x call catalogue ({name})"), ("step", name2, f"single step: configurations x call catalogue ({name2})")]
     # 2a. "new object" really new?  every copying call that returns an array, followed by every in-place call on the result R
     first = ["in_units", "to", "in_base", "in_mks", "in_cgs", "copy", "unary", "to_equivalent"] + ck.q([], ["binop", "clip", "concatenate"])
     second = ["iop", "setitem0", "convert_to_units"] + ck.q([], ["unary_out", "put"])
     nm = _cfg(ck, "MC_C18_focus", 2, ["f8"] + ck.q([], ["i8"]), ["f8"], ["la"], ["lb"], ["na"], ["f8"], first, ops2=second, focus=True)
-    hists = _run_instance(ck, nm, "copying call, then every in-place call on its result R")
-    account(hists)
-    for off in range(0, len(hists), 60000):
-        part = hists[off : off + 60000]
-        obs = ck.pmap("impl_c18", "observe", [{"cfg": h["cfg"], "h": h["h"]} for h in part], chunk_timeout=1500)
-        total_steps += _validate(ck, part, obs, f"focus_{off}")
-    ck.cov["result_then_inplace_histories"] = len(hists)
+    insts.append(("focus", nm, "copying call, then every in-place call on its result R"))
     if ck.tier == "thorough":
-        # exhaustive depth 2 on the in-place / copying alphabet that matters for sequences
+        # 2b. exhaustive depth 2 on the in-place / copying alphabet that matters for sequences
         ops = ["in_units", "convert_to_units", "iop", "unary_out", "copy", "setitem0", "convert_to_equivalent", "units_simplify"]
         nm = _cfg(ck, "MC_C18_t3", 2, ["f8", "i8"], ["f8"], ["oc"], ["lb"], ["na"], ["f8"], ops)
-        hists = _run_instance(ck, nm, "all histories of 2 calls (reduced alphabet)")
-        account(hists)
-        rnd = random.Random(ck.seed)
-        if len(hists) > 40000:
-            hists = rnd.sample(hists, 40000)
-            ck.cov["depth2_sampled"] = True
-        for off in range(0, len(hists), 60000):
-            part = hists[off : off + 60000]
-            obs = ck.pmap("impl_c18", "observe", [{"cfg": h["cfg"], "h": h["h"]} for h in part], chunk_timeout=1500)
-            total_steps += _validate(ck, part, obs, f"{nm}_{off}")
-        ck.cov["depth2_histories"] = len(hists)
-    # deeper histories over the full alphabet: about Fan calls per state chosen by a deterministic hash of (call, history, configuration, VERIF_SEED)
+        insts.append(("depth2", nm, "all histories of 2 calls (reduced alphabet)"))
+    # 2c. deeper histories over the full alphabet: about Fan calls per state chosen by a deterministic hash of (call, history, configuration, VERIF_SEED)
     fan = ck.q(13, 11)
     depth = ck.q(3, 4)
-    if ck.tier == "quick":
-        nm = _cfg(ck, "MC_C18_rnd", depth, ["f8", "i8"], ["f8"], ["la", "oc"], ["lb", "K"], ["na"], ["f8"], fan=fan)
-    else:
-        nm = _cfg(ck, "MC_C18_rnd", depth, ["f8", "i8"], ["f8"], ["la", "oc"], ["lb", "K"], ["na"], ["f8"], fan=fan)
-    sims = _run_instance(ck, nm, f"random-fan histories: depth={depth} fan={fan}")
-    account(sims)
-    ck.sample({"cfg": sims[0]["cfg"], "random_history": sims[0]["h"]})
-    for off in range(0, len(sims), 60000):
-        part = sims[off : off + 60000]
-        obs = ck.pmap("impl_c18", "observe", [{"cfg": h["cfg"], "h": h["h"]} for h in part], chunk_timeout=1500)
-        total_steps += _validate(ck, part, obs, f"rnd_{off}")
-    ck.cov["random_histories"] = len(sims)
+    nm = _cfg(ck, "MC_C18_rnd", depth, ["f8", "i8"], ["f8"], ["la", "oc"], ["lb", "K"], ["na"], ["f8"], fan=fan)
+    insts.append(("rnd", nm, f"hash-thinned histories: depth={depth} fan={fan}"))
+    with ThreadPoolExecutor(max_workers=PAR) as ex:
+        outs = list(ex.map(lambda i: _run_instance(ck, i[1], i[2]), insts))
+    allh = []
+    counts = {}
+    rnd = random.Random(ck.seed)
+    for (kind, nm, _), hists in zip(insts, outs):
+        account(hists)
+        if kind == "depth2" and len(hists) > 40000:
+            hists = rnd.sample(hists, 40000)
+            ck.cov["depth2_sampled"] = True
+        counts[kind] = counts.get(kind, 0) + len(hists)
+        if nm == insts[0][1] or kind == "rnd":
+            ck.sample({"cfg": hists[len(hists) // 2]["cfg"], ("history" if kind == "step" else "thinned_history"): hists[len(hists) // 2]["h"]})
+        allh += hists
+    ck.cov["exhaustive"] = True
+    ck.cov["single_step_cases"] = counts.get("step", 0)
+    ck.cov["result_then_inplace_histories"] = counts.get("focus", 0)
+    if "depth2" in counts:
+        ck.cov["depth2_histories"] = counts["depth2"]
+    ck.cov["random_histories"] = counts.get("rnd", 0)
     ck.cov["random_histories_bound"] = {"depth": depth, "fan": fan}
+    # replay + validate in slices to bound memory
+    total_steps = 0
+    SL = 60000
+    for off in range(0, len(allh), SL):
+        part = allh[off : off + SL]
+        obs = ck.pmap("impl_c18", "observe", [{"cfg": h["cfg"], "h": h["h"]} for h in part], chunk_timeout=1500)
+        total_steps += _validate(ck, part, obs, f"slice{off}")
 
     ck.cov["model_level_violation_classes"] = sorted(list(x) for x in model_classes)
     ck.cov["evaluations"] = total_steps
@@ -205,7 +203,5 @@ def run(ck):
     ck.cov["distinct_nontrivial"] = sk.get("inplace-raised", 0) + sk.get("inplace-ok", 0) + sk.get("copying-ok", 0)
     ck.cov["rule"] = "steps where a frame clause has something to constrain: every in-place call (failed: target intact; succeeded: only the target changed, numbers of the copying twin) and every copying call that returned"
 
-    # 3. code -> spec: the repository's test-suite under the tracer, event predicate P18
-    import suite
-
-    suite.check(ck, ["P18"])
+    suite_job.result()
+    pool.shutdown()
